@@ -347,6 +347,7 @@ inline Result exec_c03(const Plan& plan)
         static const char* vn[] = {"plain", "init", "dont_move+plain", "init_dont_move+init", "skip", "dont_move,dont_move,skip", "seeded mix"};
         const std::string vname = std::string("cursor traversal (") + vn[variant] + ")";
         if(!c.ra(q, rs, vname)) return res;
+        if(rs.unsupported) continue; // fallback build of this schema's driver: wrappers are not bound
         sim::stats().count("c03.cursor_walks");
         if(rs.csteps.size() != cm.steps.size())
         {
